@@ -4,7 +4,7 @@
     reached from any top-level call or creation by any number of steps. *)
 From Coq Require Import List ZArith NArith Bool.
 From Kardia Require Import C10.U256 C10.EVM C10.ProofsArith C10.ProofsTables C10.ProofsInv C10.ProofsFrames
-  C10.ProofsStatic C10.ProofsGas C10.ProofsTerm C10.ProofsBal C10.ProofsExamples C10.ToC09 Generated.C10Facts.
+  C10.ProofsStatic C10.ProofsGas C10.ProofsTerm C10.ProofsBal C10.ProofsMem C10.ProofsExamples C10.ToC09 Generated.C10Facts.
 Import ListNotations.
 Local Open Scope Z_scope.
 
@@ -163,6 +163,14 @@ Theorem C10_identity_returndata_is_a_copy :
             = Final OOk (word_bytes 7719472615821079694904732333912527190217998977709370935963838933860875309329) g.
 Proof. exact identity_returndata_is_a_copy. Qed.
 Print Assumptions C10_identity_returndata_is_a_copy.
+
+(** memory is word-granular: the memory of every frame of every reachable configuration is a whole
+    number of 32-byte words (every instruction write and every callee return write lands inside the
+    memory that was resized for it — KVM's Memory.Set would panic otherwise) *)
+Theorem C10_memory_word_granular : forall keccak blockhash e c f,
+    reachable_g keccak blockhash e c -> In f (c_frames c) -> (Z.of_nat (length (f_mem f))) mod 32 = 0.
+Proof. exact memory_word_granular. Qed.
+Print Assumptions C10_memory_word_granular.
 
 (** arithmetic against the mathematical definitions *)
 Theorem C10_sdiv_spec : forall a b, is_word a -> is_word b -> b <> 0 ->
